@@ -417,6 +417,9 @@ func runValueSources(sum *Summary, site string, stride int, emit func(expr strin
 // extraTextCases: the text-only families of a property whose main stream consists of reference cases
 func extraTextCases(prop, tier, out string, sum *Summary, values, rebuilds bool) {
 	tc := newTextCases(prop, out, sum)
+	if prop == "C01" || prop == "C20" {
+		runPrecision(sum, "beyond-float-precision")
+	}
 	if values {
 		stride := 9
 		if tier == "thorough" {
@@ -452,4 +455,84 @@ func enumText(t string) bool {
 		}
 	}
 	return false
+}
+
+// ---- numbers that differ only beyond the precision of a float64 (or below its range), in every place where
+// numbers are compared, ordered, searched or subtracted (ninth wave: "compare through float64" looks like a harmless
+// speed-up and is invisible to every value a float64 holds exactly) ----
+type precCase struct {
+	expr string
+	doc  any
+	want any
+}
+
+func precisionFamily() []precCase {
+	var out []precCase
+	pairs := [][2]string{{"9007199254740992", "9007199254740993"}, {"-9007199254740993", "-9007199254740992"}, {"1234567890123456788", "1234567890123456789"}, {"0.3", "0.30000000000000000001"}, {"1", "1.00000000000000000001"}, {"0", "1e-400"},
+		{"9223372036854775807", "9223372036854775808"}, {"18446744073709551615", "18446744073709551616"}, {"0.1", "0.1000000000000000000001"}, {"12345678901234567890", "12345678901234567891"}, {"-1e-400", "0"}, {"1e400", "1.0000000000000000000001e400"}}
+	for _, p := range pairs {
+		X, Y := json.Number(p[0]), json.Number(p[1])
+		doc := func() any {
+			return map[string]any{"x": X, "y": Y, "l": []any{Y, X}, "o": []any{map[string]any{"k": Y, "i": "b"}, map[string]any{"k": X, "i": "a"}},
+				"m": map[string]any{"p": map[string]any{"k": Y, "i": "b"}, "q": map[string]any{"k": X, "i": "a"}}}
+		}
+		lx, ly := "`"+p[0]+"`", "`"+p[1]+"`"
+		add := func(e string, want any) { out = append(out, precCase{e, doc(), want}) }
+		add("x < y", true)
+		add("y > x", true)
+		add("x >= y", false)
+		add("y <= x", false)
+		add("x <= y", true)
+		add("x == y", false)
+		add("x != y", true)
+		add("x < "+ly, true)
+		add(lx+" < y", true)
+		add(ly+" > "+lx, true)
+		add(lx+" >= "+ly, false)
+		add(lx+" == "+ly, false)
+		add("y == "+ly, true)
+		add("sort(l)", []any{X, Y})
+		add("sort(l)[0] == x", true)
+		add("sort_by(o, &k)[*].i", []any{"a", "b"})
+		add("sort_by(values(m), &k)[*].i", []any{"a", "b"})
+		add("sort_by(*, &k)[*].i"[:0]+"sort_by(m.*, &k)[*].i", []any{"a", "b"})
+		add("max(l) == y", true)
+		add("min(l) == x", true)
+		add("max(l) == x", false)
+		add("max_by(o, &k).i", "b")
+		add("min_by(o, &k).i", "a")
+		add("max_by(values(m), &k).i", "b")
+		add("l[?@ > "+lx+"]", []any{Y})
+		add("l[?@ < "+ly+"]", []any{X})
+		add("l[?@ == "+ly+"]", []any{Y})
+		add("l[?@ != "+ly+"]", []any{X})
+		add("o[?k == "+ly+"].i", []any{"b"})
+		add("o[?k == "+ly+"] | [*].i", []any{"b"})
+		add("o[?k > "+lx+"].i", []any{"b"})
+		add("o[?k < "+ly+"] | [*].i", []any{"a"})
+		add("o[?k >= "+ly+"] | [*].i", []any{"b"})
+		add("length(o[?k == "+lx+"])", json.Number("1"))
+		add("contains(l, "+lx+")", true)
+		add("contains([x], y)", false)
+		add("[x, y] == [y, x]", false)
+		add("{a: x} == {a: y}", false)
+		add("length(group_by(o, &to_string(k)))", json.Number("2"))
+		add("reverse(sort(l))[0] == y", true)
+		add("sort([y, x, y])[0] == x", true)
+		add("let $v = x in l[?@ > $v] == [y]", true)
+		add("map(&(@ > $.x), l)", []any{true, false})
+	}
+	return out
+}
+
+func runPrecision(sum *Summary, site string) {
+	reported := 0
+	for _, c := range precisionFamily() {
+		o := search(c.expr, c.doc)
+		sum.count("precision/" + o.Kind)
+		if !(o.Kind == "val" && sameValue(o.Value, c.want, false)) && reported < 8 {
+			reported++
+			sum.direct(site, c.expr, c.doc, "two numbers that differ beyond float64 precision: expected "+toJSON(c.want)+", got "+describe(o))
+		}
+	}
 }
